@@ -487,8 +487,11 @@ def run_l3(rig, r, lines, fault, probe_key):
             rig.offset += 100000; rig.drivers.run()
         if d.connected:
             n0 = len(rig.sock.sent)
-            rig.sock.recvs.append(('d', b'PING :' + probe_key + b'\r\n'))
-            for _ in range(3): rig.drivers.run()
+            # the probe arrives the way TCP may deliver it: in three pieces
+            probe = b'PING :' + probe_key + b'\r\n'
+            for piece in (probe[:2], probe[2:7], probe[7:]):
+                rig.sock.recvs.append(('d', piece)); rig.drivers.run()
+            for _ in range(2): rig.drivers.run()
             answered = (b'PONG :' + probe_key) in pongs_of(rig.sock.sent[n0:])
             # a channel message must still be processed as well (the per-message channel lookup is on every path)
             n1 = len(rig.sock.sent)
